@@ -765,7 +765,8 @@ static void case_c13(rng_t *r, ctx_t *c) {
         sig_ids[sig_n++] = id;
         const dtype_t *t = pick_type(r);
         struct jls_signal_def_s d;
-        gen_def(r, &d, id, src_ids[rng_below(r, (uint64_t) src_n)], t, rng_chance(r, 1, 2) ? DEF_MINIMAL : DEF_SMALL);
+        /* one signal in six belongs to source 0, the source every file defines itself */
+        gen_def(r, &d, id, rng_chance(r, 1, 6) ? 0 : src_ids[rng_below(r, (uint64_t) src_n)], t, rng_chance(r, 1, 2) ? DEF_MINIMAL : DEF_SMALL);
         sig_vsr[sig_n - 1] = rng_chance(r, 1, 5);
         if (sig_vsr[sig_n - 1]) { d.signal_type = JLS_SIGNAL_TYPE_VSR; d.sample_rate = 0; }   /* definitions of both signal types round-trip */
         int ncls = (int) rng_below(r, 5), ucls = (int) rng_below(r, 5);
